@@ -12,7 +12,10 @@ package main
 import (
 	"bytes"
 	"context"
+	"encoding/binary"
 	"fmt"
+
+	"github.com/google/uuid"
 	"runtime"
 	"strconv"
 	"sync"
@@ -47,6 +50,8 @@ type plainStore struct {
 	arrive chan int
 	resume []chan struct{}
 	free   bool
+	existsN, setN           int
+	faultExists, faultSet   map[int]bool
 }
 
 func (s *plainStore) caller() int {
@@ -70,10 +75,24 @@ func (s *plainStore) wait() {
 }
 func (s *plainStore) Exists(key string) (bool, error) {
 	s.wait()
+	s.mu.Lock()
+	s.existsN++
+	f := s.faultExists[s.existsN]
+	s.mu.Unlock()
+	if f {
+		return false, errors.New("verif: injected Exists failure")
+	}
 	return s.under.Exists(slotPrefix + "0")
 }
 func (s *plainStore) Set(key string, value any, ttl time.Duration) error {
 	s.wait()
+	s.mu.Lock()
+	s.setN++
+	f := s.faultSet[s.setN]
+	s.mu.Unlock()
+	if f {
+		return errors.New("verif: injected Set failure")
+	}
 	return s.under.Set(slotPrefix+"0", value, ttl)
 }
 func (s *plainStore) Delete(key string) error { return s.under.Delete(slotPrefix + "0") }
@@ -86,7 +105,14 @@ func runFallback(c caseIn) *caseOut {
 	defer cancel()
 	under := memory.New(ctx)
 	n := c.N
-	st := &plainStore{Storage: under, under: under, who: map[int64]int{}, arrive: make(chan int, n), resume: make([]chan struct{}, n)}
+	st := &plainStore{Storage: under, under: under, who: map[int64]int{}, arrive: make(chan int, n), resume: make([]chan struct{}, n),
+		faultExists: map[int]bool{}, faultSet: map[int]bool{}}
+	for _, k := range c.FaultExists {
+		st.faultExists[k] = true
+	}
+	for _, k := range c.FaultSet {
+		st.faultSet[k] = true
+	}
 	gen := idgen.NewStorageIDGenerator[int64](st, "", "tunnox:id:used:client", ctx)
 	type res struct {
 		ok  bool
@@ -176,7 +202,7 @@ func runFallback(c caseIn) *caseOut {
 	}
 	if got > 1 {
 		out.PropOK = false
-		out.PropMsg = fmt.Sprintf("store without SetNX, one shared generator, one free slot: %d callers were handed the same id (check-then-set of the fallback is not one critical section)", got)
+		out.PropMsg = fmt.Sprintf("store without SetNX, one shared generator, one free slot, failing Exists calls %v / Set calls %v: %d callers were handed the same id (the fallback's check-then-set is not one critical section, or a failed check was taken for 'free')", c.FaultExists, c.FaultSet, got)
 	}
 	return out
 }
@@ -382,5 +408,86 @@ func runBirthday(c caseIn) *caseOut {
 			seen[id] = gi
 		}
 	}
+	return out
+}
+
+
+// ---- uuid mode: the UUID-based generators under failing entropy reads ----
+// uuid.SetRand installs a source whose i-th Read either fails (Fails[i-1]) or fills the buffer with bytes that carry
+// the read index i (bytes 9..12; the other bytes are a filler), so every returned id can be mapped back to the read
+// whose bytes it is made of.  The model (Model/IdGen.v ugen) predicts that mapping for any failure pattern.
+type idxRand struct {
+	mu    sync.Mutex
+	n     int
+	fails []bool
+	log   []int
+}
+
+func (r *idxRand) Read(p []byte) (int, error) {
+	r.mu.Lock()
+	defer r.mu.Unlock()
+	r.n++
+	if r.n <= len(r.fails) && r.fails[r.n-1] {
+		r.log = append(r.log, 0)
+		return 0, errors.New("verif: injected entropy failure")
+	}
+	r.log = append(r.log, r.n)
+	for i := range p {
+		p[i] = 0xA5
+	}
+	for off := 0; off+16 <= len(p); off += 16 {
+		binary.BigEndian.PutUint32(p[off+9:off+13], uint32(r.n))
+	}
+	return len(p), nil
+}
+
+func runUUID(c caseIn) (out *caseOut) {
+	out = &caseOut{PropOK: true, Sched: []int{}, Markers: []int{}, Threads: []thrOut{}}
+	src := &idxRand{fails: c.Fails}
+	uuid.SetRand(src)
+	defer uuid.SetRand(nil)
+	defer func() {
+		if r := recover(); r != nil {
+			out.Draws = src.log
+			// two failing reads in a row: uuid.New() panics (Must); the model stops there as well
+			out.PropMsg = fmt.Sprintf("panic: %v", r)
+		}
+	}()
+	ctx, cancel := context.WithCancel(context.Background())
+	defer cancel()
+	mgr := idgen.NewIDManager(memory.New(ctx), ctx)
+	bare := idgen.NewUUIDGenerator("x_")
+	seen := map[string]int{}
+	for i := 0; i < c.N; i++ {
+		var id string
+		var err error
+		switch c.Kind {
+		case 0:
+			id, err = mgr.GenerateConnectionID()
+		case 1:
+			id, err = mgr.GenerateTunnelID()
+		case 2:
+			id, err = mgr.GeneratePortMappingInstanceID()
+		default:
+			id, err = bare.Generate()
+		}
+		if err != nil {
+			out.IDs = append(out.IDs, -1)
+			continue
+		}
+		if j, dup := seen[id]; dup && out.PropOK {
+			out.PropOK = false
+			out.PropMsg = fmt.Sprintf("entropy reads failing as %v: Generate call #%d returned %q, the id call #%d returned and which is still live", c.Fails, i+1, id, j+1)
+		}
+		seen[id] = i
+		idx := 0
+		if k := len(id) - 36; k >= 0 {
+			if u, perr := uuid.Parse(id[k:]); perr == nil && u != uuid.Nil {
+				idx = int(binary.BigEndian.Uint32(u[9:13]))
+			}
+		}
+		out.IDs = append(out.IDs, idx)
+	}
+	out.Draws = src.log
 	return out
 }
